@@ -13,6 +13,10 @@ package shimagent
 //@ protected exclusive Server.agent, Server.conn by Server.mu
 
 //@ ghost func inv(s *Server) bool = s.agent != nil && s.conn != nil && s.certs != nil && s.upstreamSSHCACertCache != nil
+//@ # table invariants: in-memory entries are objects; with the no-upstream mode off the cache of hidden upstream certificates stays empty
+//@ ghost func certsNonNil(s *Server) bool = forall(h#bytes, h in dom(s.certs), s.certs[h] != nil)
+//@ ghost func cacheOff(s *Server) bool = !s.noUpstreamSSHCACert ==> mapdom(s.upstreamSSHCACertCache) == nokeys(s.upstreamSSHCACertCache)
+//@ ghost func inv2(s *Server) bool = certsNonNil(s) && cacheOff(s)
 //@ ghost func condsOK(s *Server) bool = forall(i, 0 <= i && i < 40, s.conds[i] != nil && s.conds[i].L != nil && mstate(pl(s.conds[i].L)) == 0)
 //@ ghost func unheld(s *Server) bool = mstate(addrof(s.mu)) == 0
 //@ ghost func wheld(s *Server) bool = mstate(addrof(s.mu)) == 1
@@ -52,9 +56,9 @@ package shimagent
 //@     (s.locked <==> result != nil))
 
 //@ func (*Server).RemoveAll(s)
-//@   requires s != nil && inv(s) && unheld(s)
+//@   requires s != nil && inv(s) && unheld(s) && inv2(s)
 //@   modifies mstate(addrof(s.mu)), s.certs, s.upstreamSSHCACertCache
-//@   ensures unheld(s) && inv(s)
+//@   ensures unheld(s) && inv(s) && inv2(s)
 //@   ensures [locked-refuses] old(s.locked) ==> (result == errAgentLocked && calls(Agent.RemoveAll) == old(calls(Agent.RemoveAll)) &&
 //@     s.certs == old(s.certs) && s.upstreamSSHCACertCache == old(s.upstreamSSHCACertCache))
 //@   ensures [both-tables-emptied] !old(s.locked) ==> (fresh(s.certs) && fresh(s.upstreamSSHCACertCache) &&
@@ -105,7 +109,7 @@ package shimagent
 //@ # filter: purge of expired / orphan certificates (its own contract is refined under C07)
 //@ func (*Server).filter(s)
 //@   flag logged
-//@   requires s != nil && inv(s) && wheld(s) && certsNonNil(s) && cacheOff(s)
+//@   requires s != nil && inv(s) && wheld(s) && inv2(s)
 //@   modifies mapof(s.certs), mapof(s.upstreamSSHCACertCache)
 //@   ensures wheld(s) && inv(s)
 //@   ensures err != nil ==> (inMemoryCerts == nil && inAgentKeys == nil)
@@ -115,10 +119,10 @@ package shimagent
 
 //@ func (*Server).remove(s, key)
 //@   flag logged
-//@   requires s != nil && inv(s) && wheld(s) && key != nil
+//@   requires s != nil && inv(s) && wheld(s) && key != nil && inv2(s)
 //@   modifies mapof(s.certs), mapof(s.upstreamSSHCACertCache)
 //@   let r0 = old(calls(Agent.Remove))
-//@   ensures wheld(s) && inv(s)
+//@   ensures wheld(s) && inv(s) && inv2(s)
 //@   ensures [one-underlying-remove] calls(Agent.Remove) == r0 + 1 && arg(Agent.Remove, r0, 1) == key && arg(Agent.Remove, r0, 0) == s.agent
 //@   ensures [in-memory-entry-gone] !(keyhash(key) in dom(s.certs))
 //@   ensures [other-entries-kept] mapdom(s.certs) == without(old(mapdom(s.certs)), keyhash(key)) && mapval(s.certs) == old(mapval(s.certs))
@@ -129,9 +133,9 @@ package shimagent
 //@     without(old(mapdom(s.upstreamSSHCACertCache)), keyhash(key)) : old(mapdom(s.upstreamSSHCACertCache)))
 
 //@ func (*Server).Remove(s, key)
-//@   requires s != nil && inv(s) && unheld(s)
+//@   requires s != nil && inv(s) && unheld(s) && inv2(s)
 //@   modifies mstate(addrof(s.mu)), mapof(s.certs), mapof(s.upstreamSSHCACertCache)
-//@   ensures unheld(s) && inv(s)
+//@   ensures unheld(s) && inv(s) && inv2(s)
 //@   ensures [locked-refuses] old(s.locked) ==> (result == errAgentLocked && calls(remove) == old(calls(remove)) && calls(Agent.Remove) == old(calls(Agent.Remove)) &&
 //@     mapdom(s.certs) == old(mapdom(s.certs)) && mapval(s.certs) == old(mapval(s.certs)) && mapdom(s.upstreamSSHCACertCache) == old(mapdom(s.upstreamSSHCACertCache)))
 //@   ensures [nil-key-refused] (!old(s.locked) && key == nil) ==> (result != nil && calls(remove) == old(calls(remove)))
@@ -139,7 +143,7 @@ package shimagent
 //@     arg(remove, old(calls(remove)), 0) == s && result == ret(remove, old(calls(remove)), 0))
 
 //@ func (*Server).Sign(s, key, data)
-//@   requires s != nil && inv(s) && unheld(s)
+//@   requires s != nil && inv(s) && unheld(s) && inv2(s)
 //@   requires key != nil ==> keyutil.wfKey(key)
 //@   modifies mstate(addrof(s.mu)), mapof(s.certs), mapof(s.upstreamSSHCACertCache)
 //@   let w0 = old(calls(Server.SignWithFlags))
@@ -148,13 +152,13 @@ package shimagent
 
 //@ func (*Server).SignWithFlags(s, key, data, flags)
 //@   flag logged
-//@   requires s != nil && inv(s) && unheld(s)
+//@   requires s != nil && inv(s) && unheld(s) && inv2(s)
 //@   requires key != nil ==> keyutil.wfKey(key)
 //@   modifies mstate(addrof(s.mu)), mapof(s.certs), mapof(s.upstreamSSHCACertCache)
 //@   let f0 = old(calls(filter))
 //@   let g0 = old(calls(ExtendedAgent.SignWithFlags))
 //@   let c0 = old(calls(CastSSHPublicKeyToCertificate))
-//@   ensures unheld(s) && inv(s)
+//@   ensures unheld(s) && inv(s) && inv2(s)
 //@   ensures [locked-refuses] old(s.locked) ==> (result0 == nil && result1 != nil && calls(ExtendedAgent.SignWithFlags) == g0 && calls(filter) == f0)
 //@   ensures [nil-key-refused] (!old(s.locked) && key == nil) ==> (result0 == nil && result1 != nil && calls(ExtendedAgent.SignWithFlags) == g0 && calls(filter) == f0)
 //@   ensures [purge-before-signing] (!old(s.locked) && key != nil) ==> (calls(filter) == f0 + 1 && arg(filter, f0, 0) == s)
@@ -213,12 +217,12 @@ package shimagent
 
 //@ import certutil "github.com/theparanoids/ysshra/sshutils/cert"
 //@ func (*Server).AddHardCert(s, key, suffix)
-//@   requires s != nil && inv(s) && unheld(s)
+//@   requires s != nil && inv(s) && unheld(s) && inv2(s)
 //@   requires key != nil ==> keyutil.wfKey(key)
 //@   modifies mstate(addrof(s.mu)), mapof(s.certs)
 //@   let l0 = old(calls(Agent.List))
 //@   let c0 = old(calls(CastSSHPublicKeyToCertificate))
-//@   ensures unheld(s) && inv(s)
+//@   ensures unheld(s) && inv(s) && inv2(s)
 //@   ensures [locked-refuses] old(s.locked) ==> (result == errAgentLocked && calls(Agent.List) == l0 &&
 //@     mapdom(s.certs) == old(mapdom(s.certs)) && mapval(s.certs) == old(mapval(s.certs)))
 //@   ensures [nil-key-refused] (!old(s.locked) && key == nil) ==> (result != nil && calls(Agent.List) == l0)
@@ -251,8 +255,6 @@ package shimagent
 //@ # wire blob of an agent.Key / what a no-upstream shim hides: a certificate blob that parses and whose key id decodes as a YSSHCA KeyID
 //@ ghost func akBlob(k *agent.Key) int = contentOf(elems(k.Blob), off(k.Blob), len(k.Blob))
 //@ ghost func hiddenBlob(b int) bool = certBlob(b) && parseOKid(b) && keyid.decOK(certKeyId(b))
-//@ ghost func certsNonNil(s *Server) bool = forall(h#bytes, h in dom(s.certs), s.certs[h] != nil)
-//@ ghost func cacheOff(s *Server) bool = !s.noUpstreamSSHCACert ==> mapdom(s.upstreamSSHCACertCache) == nokeys(s.upstreamSSHCACertCache)
 
 //@ ghost func cblob(c *certificate) int = contentOf(elems(c.Blob), off(c.Blob), len(c.Blob))
 //@ func marshalAgentKey(key)
@@ -263,10 +265,10 @@ package shimagent
 //@   ensures typeof(key) == *agent.Key ==> result == key.(*agent.Key)
 
 //@ func (*Server).List(s)
-//@   requires s != nil && inv(s) && unheld(s) && certsNonNil(s) && cacheOff(s)
+//@   requires s != nil && inv(s) && unheld(s) && inv2(s)
 //@   modifies mstate(addrof(s.mu)), mapof(s.certs), mapof(s.upstreamSSHCACertCache)
 //@   let f0 = old(calls(filter))
-//@   ensures unheld(s) && inv(s) && certsNonNil(s) && cacheOff(s)
+//@   ensures unheld(s) && inv(s) && inv2(s)
 //@   ensures [locked-lists-nothing] old(s.locked) ==> (len(result0) == 0 && result1 == nil && calls(filter) == f0 &&
 //@     mapdom(s.certs) == old(mapdom(s.certs)) && mapdom(s.upstreamSSHCACertCache) == old(mapdom(s.upstreamSSHCACertCache)))
 //@   ensures [purge-before-listing] !old(s.locked) ==> (calls(filter) == f0 + 1 && arg(filter, f0, 0) == s)
